@@ -295,8 +295,8 @@ func cronRun(args []string) int {
 		off := offsets[r.Intn(len(offsets))]
 		mk := func(w int64, place string) *cronCase {
 			sec := w - int64(off)
-			if sec < 0 {
-				sec = 0
+			if sec < -2200000000 { // prev may lie before 1970 (down to 1900); NextFireTime rounds it down to its whole second
+				sec = -2200000000
 			}
 			var ns int64
 			if sec >= maxPrev/1000000000 {
@@ -322,7 +322,7 @@ func cronRun(args []string) int {
 			for j := 0; j < *chain; j++ {
 				cc := mk(w, place)
 				cases = append(cases, cc)
-				nw, ok := c.Spec.Next(cc.Prev/1e9 + int64(off))
+				nw, ok := c.Spec.Next(floorDiv64(cc.Prev, 1e9) + int64(off))
 				if !ok {
 					break
 				}
@@ -332,6 +332,15 @@ func cronRun(args []string) int {
 			w, place := placePrev(r, nil)
 			cases = append(cases, mk(w, place))
 		}
+		if c.Expect == crongen.MustAccept && r.Intn(12) == 0 {
+			// a prev before 1970 (negative, mostly with a sub-second part): the whole second it lies in is the one BEFORE the truncated one
+			w := -1 - r.Int63n(2100000000)
+			if r.Intn(3) == 0 {
+				w = -1 - r.Int63n(3)
+			}
+			cc := mk(w+int64(off), "before-1970")
+			cases = append(cases, cc)
+		}
 	}
 
 	// what the independent oracle requires
@@ -340,7 +349,7 @@ func cronRun(args []string) int {
 			continue
 		}
 		off, _ := strconv.Atoi(c.Loc)
-		want, ok := c.spec.Next(c.Prev/1e9 + int64(off))
+		want, ok := c.spec.Next(floorDiv64(c.Prev, 1e9) + int64(off))
 		if ok {
 			c.Expect = "ok " + strconv.FormatInt((want-int64(off))*1e9, 10)
 		} else {
